@@ -4,42 +4,8 @@
 (* the classifier must assign when the spelling is the first line of a document in MultiMarkdown mode;       *)
 (* in other positions the kind depends on context (that dependence is what the parser's %fallback encodes)   *)
 (* and the observed kind is taken from lemon's trace instead.                                                *)
-EXTENDS Integers, Sequences, TLC, Json
+EXTENDS LineSpell, TLC, Json
 CONSTANTS MaxLines, Sim
-Spell == <<
-  [t |-> "* * *",           first |-> "LINE_HR"],
-  [t |-> "===",             first |-> "LINE_SETEXT_1"],
-  [t |-> "---",             first |-> "LINE_YAML"],
-  [t |-> "plain text",      first |-> "LINE_PLAIN"],
-  [t |-> "\ttabbed",        first |-> "LINE_INDENTED_TAB"],
-  [t |-> "    spaced",      first |-> "LINE_INDENTED_SPACE"],
-  [t |-> "a | b",           first |-> "LINE_TABLE"],
-  [t |-> "--|:-:",          first |-> "LINE_TABLE_SEPARATOR"],
-  [t |-> "<div>",           first |-> "LINE_HTML"],
-  [t |-> "# h1",            first |-> "LINE_ATX_1"],
-  [t |-> "## h2 ##",        first |-> "LINE_ATX_2"],
-  [t |-> "###### h6",       first |-> "LINE_ATX_6"],
-  [t |-> "> quote",         first |-> "LINE_BLOCKQUOTE"],
-  [t |-> "* item",          first |-> "LINE_LIST_BULLETED"],
-  [t |-> "1. item",         first |-> "LINE_LIST_ENUMERATED"],
-  [t |-> "[>abbr]: Abbr",   first |-> "LINE_DEF_ABBREVIATION"],
-  [t |-> "[#cite]: Cite",   first |-> "LINE_DEF_CITATION"],
-  [t |-> "[^fn]: Note",     first |-> "LINE_DEF_FOOTNOTE"],
-  [t |-> "[?gl]: Term",     first |-> "LINE_DEF_GLOSSARY"],
-  [t |-> "[lnk]: http://x", first |-> "LINE_DEF_LINK"],
-  [t |-> "{{TOC}}",         first |-> "LINE_TOC"],
-  [t |-> ": definition",    first |-> "LINE_DEFINITION"],
-  [t |-> "Key: value",      first |-> "LINE_META"],
-  [t |-> "```",             first |-> "LINE_FENCE_BACKTICK_3"],
-  [t |-> "`````",           first |-> "LINE_FENCE_BACKTICK_5"],
-  [t |-> "```c",            first |-> "LINE_FENCE_BACKTICK_START_3"],
-  [t |-> "-->",             first |-> "LINE_STOP_COMMENT"],
-  [t |-> "",                first |-> "LINE_EMPTY"],
-  [t |-> "<!--",            first |-> "LINE_START_COMMENT"],
-  [t |-> "| c |",           first |-> "LINE_TABLE"],
-  [t |-> "   + item",       first |-> "LINE_LIST_BULLETED"],
-  [t |-> "[x]: y \"t\"",    first |-> "LINE_DEF_LINK"] >>
-N == Len(Spell)
 VARIABLE doc            \* sequence of spelling indices
 Init == doc = <<>>
 Pick(S) == IF Sim THEN {RandomElement(S)} ELSE S
